@@ -96,6 +96,16 @@ CLAIMED = {
               "KF-S2-C09, kernel-checked counterexample C09_full_fails replayed on every run) and outside link partners are leaves. "
               + SCHED_TIE),
         design='6 (C09)', technique='Lean 4 proof (backward pass invariant) of partial statements + counterexample + differential correspondence'),
+    'C12': dict(
+        text=("Theorems for every input of the critical-path model (leaf-level reading of the repaired activity-on-arc network): C12_exact - "
+              "the call returns exactly the leaves whose earliest finish plus longest remaining tail equals the project length; C12_total - it "
+              "returns (no KeyError) whenever the leaf-level waits-for relation is acyclic; C12_members - only leaf members, each once; "
+              "C12_nonempty - never empty when the WBS has a leaf; C12_inherited - predecessors of a task and of all its parents, expanded to "
+              "leaf members, bind it. The model is tied to the code by a correspondence stream (links on leaves and summaries, equal-length "
+              "branches, zero-length tasks, outside predecessors); the statement's characterisation is also evaluated on the implementation's "
+              "result; insensitivity to float rounding cannot be a theorem over rationals and is checked by a second stream with decimal "
+              "fractional estimates (0.1+0.2 vs 0.3) judged by the exact characterisation over the decimals; purity by snapshot."),
+        design='7 (C12)', technique='Lean 4 proof (forward/backward pass = ef / project length - tail) + differential correspondence + decimal-tie stream'),
     'C14': dict(
         text=("Theorems C14_forward / C14_backward: for every WBS satisfying the structural invariants (forest stored on both ends, symmetric links; "
               "what C01 guarantees) and every resource set whose calendars do not raise, calc in the model ends in a schedule or RuntimeError - "
